@@ -1,8 +1,9 @@
 (* Extraction of the C11 model for the correspondence driver.  ExtrOcamlBasic and
    ExtrOcamlString only: N, Z, positive, nat stay the extracted inductive datatypes. *)
-From SV Require Import Base.Prelude Model.Shard.
+From SV Require Import Base.Prelude Model.Shard Model.ShardConnect.
 Require Extraction.
 Require Import ExtrOcamlBasic ExtrOcamlString.
 Extraction Language OCaml.
 Extraction "../ocaml/c11/model.ml" shard_of spec_shard_of shard_of_source_port ports_for_shard spec_ports
-  accept_iter accept_draw prop_iter_ok prop_draw_ok parse_shard_info.
+  accept_iter accept_draw prop_iter_ok prop_draw_ok parse_shard_info
+  accept_conn accept_conns starvedb.
